@@ -441,7 +441,15 @@ class DiscriminatedUnionUnpackerBuilder(AbstractUnpackerBuilder):
             variant_call_args = variant_method_call[len(variant_method_name) :]
             with lines.indent("try:"):
                 if spec.builder.is_nailed:
-                    lines.append(f"unpack = {chosen_cls}.{variant_method_name}")
+                    # the method must be the variant's own: an inherited one
+                    # (found through the MRO) was compiled for a parent class
+                    # - possibly this very dispatcher
+                    lines.append(f"__variant = {chosen_cls}")
+                    with lines.indent(
+                        f"if {variant_method_name!r} not in __variant.__dict__:"
+                    ):
+                        lines.append("raise AttributeError")
+                    lines.append(f"unpack = __variant.{variant_method_name}")
                 else:
                     lines.append(
                         f"unpack = {spec.attrs_registry_name}"
@@ -487,6 +495,11 @@ class DiscriminatedUnionUnpackerBuilder(AbstractUnpackerBuilder):
             with lines.indent(f"for variant in {variants}:"):
                 with lines.indent("try:"):
                     if spec.builder.is_nailed:
+                        with lines.indent(
+                            f"if {variant_method_name!r} "
+                            "not in variant.__dict__:"
+                        ):
+                            lines.append("raise AttributeError")
                         lines.append(f"return variant.{variant_method_call}")
                     else:
                         lines.append(
